@@ -1,8 +1,10 @@
 //go:build verif
 
-package xdsclient
+package clusterimpl
 
-// C38 (d): ClusterRequestsCounter. Every sequence of start/end operations up to
+// C38 (d): xdsclient.ClusterRequestsCounter, driven directly through its exported
+// API (the in-flight count is read from the unexported field by reflection; this
+// leg lives in the clusterimpl test binary only to save a third build). Every sequence of start/end operations up to
 // a depth, for max_requests in {0,1,2} (and with the limit varying per call),
 // on a fresh counter, against an in-flight ledger written from the statement:
 // a start is admitted iff fewer than max requests are in flight; never more
@@ -12,10 +14,10 @@ package xdsclient
 import (
 	"fmt"
 	"strings"
-	"sync/atomic"
 	"testing"
 
 	"google.golang.org/grpc/internal/verif/vk"
+	"google.golang.org/grpc/internal/xds/xdsclient"
 )
 
 const c38dP = "C38"
@@ -23,8 +25,8 @@ const c38dP = "C38"
 // ops: 0..2 = StartRequest(max=op) ; 3 = EndRequest of one admitted request
 var c38dOpNames = []string{"start(max=0)", "start(max=1)", "start(max=2)", "end"}
 
-func c38dRun(alphabet []int, seq []int, ctr *ClusterRequestsCounter) (fail string, skip bool, adm, rej int) {
-	if n := atomic.LoadUint32(&ctr.numRequests); n != 0 {
+func c38dRun(alphabet []int, seq []int, ctr *xdsclient.ClusterRequestsCounter) (fail string, skip bool, adm, rej int) {
+	if n := c38cInflight(ctr); n != 0 {
 		return fmt.Sprintf("fresh counter starts at %d", n), false, 0, 0
 	}
 	inflight := uint32(0)
@@ -74,7 +76,7 @@ func c38dRun(alphabet []int, seq []int, ctr *ClusterRequestsCounter) (fail strin
 				rej++
 			}
 		}
-		if got := atomic.LoadUint32(&ctr.numRequests); got != inflight {
+		if got := c38cInflight(ctr); got != inflight {
 			return fmt.Sprintf("%s: counter reads %d, %d admitted requests are unfinished", hist(k), got, inflight), false, adm, rej
 		}
 		if fixedMax >= 0 && inflight > uint32(fixedMax) {
@@ -84,7 +86,7 @@ func c38dRun(alphabet []int, seq []int, ctr *ClusterRequestsCounter) (fail strin
 	for ; inflight > 0; inflight-- {
 		ctr.EndRequest()
 	}
-	if got := atomic.LoadUint32(&ctr.numRequests); got != 0 {
+	if got := c38cInflight(ctr); got != 0 {
 		return fmt.Sprintf("%s: after every admitted request ended the counter reads %d, not 0", hist(len(seq)-1), got), false, adm, rej
 	}
 	return "", skip, adm, rej
@@ -107,7 +109,7 @@ func TestVerif_C38_Counter(t *testing.T) {
 			r.EngineError("replay: %v", err)
 			return
 		}
-		f, _, _, _ := c38dRun(alphabets[rp.Alphabet], rp.Seq, &ClusterRequestsCounter{ClusterName: "replay"})
+		f, _, _, _ := c38dRun(alphabets[rp.Alphabet], rp.Seq, &xdsclient.ClusterRequestsCounter{ClusterName: "replay"})
 		r.Eval(P, 1)
 		if f != "" {
 			r.Violation(P, "replay counter", f, rp)
@@ -138,18 +140,18 @@ func TestVerif_C38_Counter(t *testing.T) {
 					seq[i] = y % len(al)
 					y /= len(al)
 				}
-				var ctr *ClusterRequestsCounter
+				var ctr *xdsclient.ClusterRequestsCounter
 				if l <= 3 {
 					// through the registry: a fresh key each time
-					ctr = GetClusterRequestsCounter(fmt.Sprintf("c38d-%d", id), "svc")
-					if GetClusterRequestsCounter(fmt.Sprintf("c38d-%d", id), "svc") != ctr {
+					ctr = xdsclient.GetClusterRequestsCounter(fmt.Sprintf("c38d-%d", id), "svc")
+					if xdsclient.GetClusterRequestsCounter(fmt.Sprintf("c38d-%d", id), "svc") != ctr {
 						r.Violation(P, "registry same key", "GetClusterRequestsCounter returned two different counters for one (cluster, service) key", nil)
 					}
-					if GetClusterRequestsCounter(fmt.Sprintf("c38d-%d", id), "other") == ctr {
+					if xdsclient.GetClusterRequestsCounter(fmt.Sprintf("c38d-%d", id), "other") == ctr {
 						r.Violation(P, "registry different key", "GetClusterRequestsCounter returned the same counter for two different (cluster, service) keys", nil)
 					}
 				} else {
-					ctr = &ClusterRequestsCounter{ClusterName: "c38d"}
+					ctr = &xdsclient.ClusterRequestsCounter{ClusterName: "c38d"}
 				}
 				f, skip, adm, rej := c38dRun(al, seq, ctr)
 				if skip && f == "" {
